@@ -92,14 +92,17 @@ impl<T: RefCnt> HybridProtection<T> {
                 Self::from_inner(unsafe { Self::new(candidate, Some(debt)).into_inner() })
             }
             Err((unused_debt, replacement)) => {
+                // We got a (possibly) different pointer out. But that one is already protected and
+                // the slot is paid back. Own it first: releasing the candidate below may run the
+                // destructor of the pointee and if that one panics, the reference we were given
+                // must not be lost.
+                let replacement = unsafe { Self::new(replacement as *mut _, None) };
                 // The debt is on the candidate we provided and it is unused, we so we just pay it
                 // back right away.
                 if !unused_debt.pay::<T>(candidate) {
                     unsafe { T::dec(candidate) };
                 }
-                // We got a (possibly) different pointer out. But that one is already protected and
-                // the slot is paid back.
-                unsafe { Self::new(replacement as *mut _, None) }
+                replacement
             }
         }
     }
